@@ -132,8 +132,9 @@ func c10Eval(cs *core.Case) (bool, string, string) {
 	}
 	allowed["json"] = true
 	if !allowed[got] || c10Prio[got] < c10Prio[bestFull] {
-		if strings.HasPrefix(got, "other:") && !jsonFamily(m) {
-			// not JSON at all: that is C08's concern, not a sub-type error
+		if strings.HasPrefix(got, "other:") && !jsonFamily(m) && bestFull == "json" {
+			// not JSON at all and no deciding member inside the header: that is
+			// C08's concern, not a sub-type error
 			return true, "not-json", ""
 		}
 		return false, fmt.Sprintf("C10/cut/best-inside-%s-got-%s", bestFull, got),
